@@ -56,6 +56,14 @@ ALIAS_UNPROVED_ARGS = {
         'calls rbasex_transform with **transform_options (may contain `weights`): same reason'),
 }
 
+# Public callables whose result may be (a view of) one of their arguments, by design.
+ALIAS_RETURNS_ARG = {
+    'abel.tools.vmi.Distributions': (
+        ['weights'],
+        'constructor: the object keeps the weights array it was given (np.asarray(weights, float)) as its attribute; '
+        'the arrays given to a constructor belong to the object'),
+}
+
 # Public methods for which `safe_method` is not established although no defect exists.
 ALIAS_METHOD_UNPROVED = {
     'abel.tools.analytical.SampleImage.transform':
@@ -477,6 +485,69 @@ _MORE = {
 # (origin / method given as small 1-D ndarrays above are unpacked into numbers by the callees; they are
 #  checked for mutation dynamically like every array built by the factory, but are not array parameters
 #  of the alias programs: `row, col = origin; row += height` rebinds a number)
+# ---------------------------------------------------------------------------
+# Fourth round: identity / no-op paths (requested origin = geometric centre, zero shifts, sizes that
+# need no trimming, constant correction, empty option dicts ...), where a short-cut could hand the
+# argument itself back (clause result-aliases-arg).
+_NOOP = {
+    'abel.tools.center.set_center': [
+        "abel.tools.center.set_center(A.img(21, 23, label='data'), (10, 11))",
+        "abel.tools.center.set_center(A.img(21, 23, label='data'), (10, 11), order=0)",
+        "abel.tools.center.set_center(A.img(21, 23, label='data'), (10.0, 11.0), order=1)",
+        "abel.tools.center.set_center(A.img(21, 23, label='data'), (None, None))",
+        "abel.tools.center.set_center(A.img(21, 23, label='data'), (10, None), axes=0)",
+        "abel.tools.center.set_center(A.img(21, 23, label='data'), (10, 11), crop='valid_region')",
+        "abel.tools.center.set_center(A.img(21, 23, label='data'), (10, 11), crop='maintain_data')",
+        "abel.tools.center.set_center(A.img(20, 22, label='data'), (10, 11))",
+        "abel.tools.center.set_center(A.img(21, 23, label='data'), (10.0, 11.0))"],
+    'abel.tools.center.center_image': [
+        "abel.tools.center.center_image(A.img(21, 23), method='image_center')",
+        "abel.tools.center.center_image(A.img(21, 22), method='image_center')",
+        "abel.tools.center.center_image(A.img(21, 21), method='image_center', square=True, crop='valid_region')",
+        "abel.tools.center.center_image(A.img(21, 23), method=(10, 11), odd_size=False)",
+        "abel.tools.center.center_image(A.sym(21, 23), method='com')",
+        "abel.tools.center.center_image(A.sym(21, 23), method='convolution')",
+        "abel.tools.center.center_image(A.sym(21, 23), method='com', crop='maintain_data')",
+        "abel.tools.center.center_image(A.sym(21, 22), method='convolution', axes=0)"],
+    'abel.tools.center.find_origin': ["abel.tools.center.find_origin(A.sym(21, 23), method='gaussian')"],
+    'abel.transform.Transform': [
+        "abel.transform.Transform(A.img(21, 21), method='hansenlaw', origin='image_center')",
+        "abel.transform.Transform(A.sym(21, 23), method='two_point', origin='com', transform_options=A.dict(dict(basis_dir=None), label='transform_options'))",
+        "abel.transform.Transform(A.sym(21, 21), method='hansenlaw', origin='convolution', symmetry_axis=None, recast_as_float64=True)",
+        "abel.transform.Transform(A.img(21, 21), method='hansenlaw', origin=(10, 10), center_options=A.dict(dict(), label='center_options'))"],
+    'abel.tools.circularize.circularize_image': [
+        "abel.tools.circularize.circularize_image(A.img(31, 31), method='argmax', origin='image_center', dr=0.5, dt=0.5)",
+        "abel.tools.circularize.circularize_image(A.sym(31, 31), method='argmax', origin='com', dr=0.5, dt=0.5)"],
+    'abel.tools.circularize.circularize': [
+        "abel.tools.circularize.circularize(A.img(21, 21), lambda t: 1.0 + 0.0 * t)",
+        "abel.tools.circularize.circularize(A.img(21, 21), lambda t: 1.0 + 0.0 * t, ref_angle=0.0)"],
+    'abel.tools.symmetry.get_image_quadrants': [
+        "abel.tools.symmetry.get_image_quadrants(A.img(9, 11), reorient=False)",
+        "abel.tools.symmetry.get_image_quadrants(A.sym(9, 11), symmetry_axis=(0, 1))"],
+    'abel.tools.symmetry.put_image_quadrants': [
+        "abel.tools.symmetry.put_image_quadrants((A.rand(5, 6, label='Q0'), A.rand(5, 6, label='Q1'), A.rand(5, 6, label='Q2'), A.rand(5, 6, label='Q3')), (10, 12))"],
+    'abel.tools.polar.reproject_image_into_polar': [
+        "abel.tools.polar.reproject_image_into_polar(A.img(21, 21, label='data'), origin=(10, 10), Jacobian=False, dr=1)"],
+    'abel.tools.math.gradient': ["abel.tools.math.gradient(A.img(7, 9, label='f'), dx=1)"],
+    'abel.tools.vmi.toPES': ["abel.tools.vmi.toPES(A.arange(30, label='radial'), A.gauss(30, label='intensity'), 1.0, per_energy_scaling=False)"],
+    'abel.tools.vmi.Distributions': [
+        "(lambda D: (lambda r: (r, r.cos()))(D(A.img(21, 23))))(abel.tools.vmi.Distributions('cc', order=0, use_sin=False, "
+        "weights=A.arr(np.ones((21, 23)), label='weights'), method='nearest'))"],
+    'abel.rbasex.rbasex_transform': [
+        "abel.rbasex.rbasex_transform(A.img(21, 21), order=0, weights=A.arr(np.ones((21, 21)), label='weights'))"],
+    'abel.basex.basex_transform': ["abel.basex.basex_transform(A.half(9, 11, label='data'), sigma=1.0, reg=0.0, correction=False, dr=1.0, %s)" % _TO],
+    'abel.dasch.dasch_transform': ["abel.dasch.dasch_transform(A.half(9, 11), A.arr(np.eye(11), label='D'))"],
+    'abel.basex.basex_core_transform': ["abel.basex.basex_core_transform(A.half(9, 11, label='rawdata'), A.arr(np.eye(11), label='A'))"],
+    'abel.direct.direct_transform': ["abel.direct.direct_transform(A.half(7, 11, label='fr'), dr=1, correction=False, backend='python')"],
+    'abel.onion_bordas.onion_bordas_transform': ["abel.onion_bordas.onion_bordas_transform(A.half(9, 11), dr=1, shift_grid=False)"],
+    'abel.daun.daun_transform': ["abel.daun.daun_transform(A.half(9, 11, label='data'), reg=0, degree=0, dr=1.0, %s)" % _TO],
+    'abel.linbasex.mean_beta': ["abel.linbasex.mean_beta(A.arange(15, label='radial'), A.rand(1, 15, label='Beta', lo=1.0), A.list([(0, 14)], label='regions'))"],
+    'abel.tools.polynomial.Angular': ["abel.tools.polynomial.Angular(A.arr([1.0], label='c'))"],
+    'abel.tools.polynomial.Polynomial': [
+        "abel.tools.polynomial.Polynomial(A.arange(15, label='r'), 0.0, 14.0, A.arr([1.0], label='c'), r_0=0.0, s=1.0)"],
+}
+for _k, _v in _NOOP.items():
+    SPECS[_k]['calls'] = list(SPECS[_k]['calls']) + _v
 for _k, _v in _MORE.items():
     SPECS[_k]['calls'] = list(SPECS[_k]['calls']) + _v
 
